@@ -4,6 +4,12 @@ CONSTANTS
   EnterOnFocusIn = FALSE
   StaleTarget = TRUE
   FastPath = FALSE
+  Reentrant = FALSE
+  LiveTarget = FALSE
+  BubbleSkipsLast = FALSE
+  ConsumeLeak = FALSE
+  DupSelf = FALSE
+  Answers = FALSE
   Depth = 2
   Shapes = {"H"}
 SPECIFICATION Spec
